@@ -74,7 +74,7 @@ type mcfg struct {
 
 func (m mcfg) hasReq() bool {
 	for _, k := range m.Alphabet {
-		if strings.HasPrefix(k, "R") {
+		if strings.HasPrefix(k, "R") || strings.HasPrefix(k, "P") {
 			return true
 		}
 	}
@@ -144,7 +144,7 @@ func currentFix(cfg string) string {
 // configurations made for that are exported twice - behaviours of the others that do not contain
 // such an outcome are the same in both models and are replayed on every variant.
 func (m mcfg) bothModes(thorough bool) bool {
-	return m.hasReq() && (thorough || m.Name == "req" || m.Name == "rq1")
+	return m.hasReq() && (thorough || m.Name == "req" || m.Name == "rq1" || m.Name == "rp1")
 }
 
 func (m mcfg) edit(inline bool) func(string) string {
@@ -172,7 +172,25 @@ var compositeKinds = []string{"C", "C:vn", "C:nv", "C:nn", "C:va", "C:av", "C:na
 	"K2", "K2:cn", "K2:cn-", "K2:bncn", "K2:ca"}
 
 // the fields the @requires field of each probe type needs, in SDL order
-var reqFields = map[string][]string{"R": {"w"}, "Rm": {"w"}, "R2": {"w", "n"}, "Rm2": {"w", "n"}, "R3": {"w", "n", "l"}, "Rm3": {"w", "n", "l"}}
+// (= the slots of the entity: P / Pm require dims.vol twice, through two @requires directives)
+var reqFields = map[string][]string{"R": {"w"}, "Rm": {"w"}, "R2": {"w", "n"}, "Rm2": {"w", "n"}, "R3": {"w", "n", "l"}, "Rm3": {"w", "n", "l"},
+	"P": pPaths, "Pm": pPaths}
+
+// round 4: the required paths of P / Pm. Slot s of representation j (1-based) carries the Int
+// 1000*s + (j-1): a value names the representation AND the path it was sent for.
+var pPaths = []string{"dimsVol", "dims.vol", "dims.wt", "box.vol"}
+
+// the shapes the paths of P / Pm realise, as pairs of slots (1-based) that must BOTH hold their own
+// value; dup: the slot that is required twice
+var pathShapes = []struct {
+	Name string
+	A, B int
+}{
+	{"flat-vs-nested-same-go-name(dimsVol~dims{vol})", 1, 2},
+	{"nested-shared-prefix(dims{vol}~dims{wt})", 2, 3},
+	{"same-leaf-different-parent(dims{vol}~box{vol})", 2, 4},
+	{"duplicated-path(dims{vol} x2)", 2, 2},
+}
 
 // reqKinds("R3", "Rm3") = the kinds "<T>" and "<T>:<j><b|n|a>" (j-th required value bad / null / absent)
 func reqKinds(bases ...string) []string {
@@ -206,6 +224,9 @@ func modelConfigs(thorough bool) []mcfg {
 			{"rq1", reqKinds("R", "Rm", "R2", "Rm2", "R3", "Rm3"), 1, 1, false},
 			{"rq2", append(reqKinds("R2"), "Rm2", "Rm2:1b", "Rm2:2n", "Rm2:2a"), 2, 1, false},
 			{"rq3", []string{"R3:1b", "Rm3", "Rm3:2b", "Rm3:3a"}, 3, 1, false},
+			{"rp1", reqKinds("P", "Pm"), 1, 1, false},
+			{"rp2", []string{"P", "P:2n", "P:3b", "Pm", "Pm:1b", "Pm:2a", "Pm:4n"}, 2, 1, false},
+			{"rp3", []string{"Pm", "Pm:3a", "Pm:2n"}, 3, 1, false},
 			{"ck1", compositeKinds, 1, 1, false},
 			{"ck2", []string{"C:vn", "Cm:vn", "Cm:nv", "Cm:nn", "Cm", "K2:cn", "N2:vn"}, 2, 1, false},
 			{"bk", []string{"S:kb", "Mid", "Mid:kb", "C:vb", "Cm", "Cm:vb", "Cm:bv"}, 2, 1, false},
@@ -225,6 +246,9 @@ func modelConfigs(thorough bool) []mcfg {
 		{"rq2", reqKinds("R2", "Rm2"), 2, 1, false},
 		{"rq2b", append(reqKinds("R3"), "Rm3", "Rm3:1b", "Rm3:2b", "Rm3:2n", "Rm3:3b", "Rm", "Rm:1b"), 2, 1, false},
 		{"rq3", []string{"R3:1b", "Rm3", "Rm3:1b", "Rm3:2n", "Rm3:3b"}, 3, 1, false},
+		{"rp1", reqKinds("P", "Pm"), 1, 1, false},
+		{"rp2", reqKinds("P", "Pm"), 2, 1, false},
+		{"rp3", []string{"P", "P:2a", "Pm", "Pm:1b", "Pm:3a", "Pm:4n"}, 3, 1, false},
 		{"ck1", compositeKinds, 1, 1, false},
 		{"ck2", compositeKinds, 2, 1, false},
 		{"ck3", []string{"Cm", "Cm:vn", "Cm:nv", "Cm:nn", "Cm:va", "C:vn"}, 3, 1, false},
@@ -248,10 +272,68 @@ func bigConfigs(thorough bool) []mcfg {
 
 // ---- the scenario TLC printed ----------------------------------------------------------------
 
+// psT: what every slot (distinct required path) of an element holds, "i:p,i:p,..." - slot s holds
+// the value representation i carried for path p (0:0 = null, -2:s = a zero / foreign value).
+// A string keeps elem comparable; on the wire (TLC's export, the trace) it is [{"i":..,"p":..},..].
+type psT string
+
+type pval struct {
+	I int `json:"i"`
+	P int `json:"p"`
+}
+
+func mkPs(vs []pval) psT {
+	out := make([]string, len(vs))
+	for i, v := range vs {
+		out[i] = fmt.Sprintf("%d:%d", v.I, v.P)
+	}
+	return psT(strings.Join(out, ","))
+}
+
+func (p psT) vals() []pval {
+	out := []pval{}
+	if p == "" {
+		return out
+	}
+	for _, f := range strings.Split(string(p), ",") {
+		var v pval
+		fmt.Sscanf(f, "%d:%d", &v.I, &v.P)
+		out = append(out, v)
+	}
+	return out
+}
+
+func (p psT) MarshalJSON() ([]byte, error) { return json.Marshal(p.vals()) }
+
+func (p *psT) UnmarshalJSON(b []byte) error {
+	if strings.TrimSpace(string(b)) == "{}" {
+		*p = ""
+		return nil
+	}
+	var vs []pval
+	if err := json.Unmarshal(b, &vs); err != nil {
+		return err
+	}
+	*p = mkPs(vs)
+	return nil
+}
+
+// mapI renames the representation indices (dup suite)
+func (p psT) mapI(f func(int) int) psT {
+	vs := p.vals()
+	for i := range vs {
+		if vs[i].I > 0 {
+			vs[i].I = f(vs[i].I)
+		}
+	}
+	return mkPs(vs)
+}
+
 type elem struct {
-	R string `json:"r"`
-	I int    `json:"i"`
-	W int    `json:"w"`
+	R  string `json:"r"`
+	I  int    `json:"i"`
+	W  int    `json:"w"`
+	Ps psT    `json:"ps"`
 }
 
 type ideal struct {
@@ -260,6 +342,7 @@ type ideal struct {
 	Rs   []string `json:"rs"`
 	I    int      `json:"i"`
 	W    int      `json:"w"`
+	Ps   psT      `json:"ps"`
 }
 
 type call struct {
@@ -289,7 +372,7 @@ type emitted struct {
 // @requires type)?
 func (e *emitted) inlineSensitive() bool {
 	for i, o := range e.Out {
-		if o == "nil" && strings.HasPrefix(e.Reps[i], "R") && !strings.HasPrefix(e.Reps[i], "Rm") {
+		if o == "nil" && ((strings.HasPrefix(e.Reps[i], "R") && !strings.HasPrefix(e.Reps[i], "Rm")) || (strings.HasPrefix(e.Reps[i], "P") && !strings.HasPrefix(e.Reps[i], "Pm"))) {
 			return true
 		}
 	}
@@ -311,15 +394,15 @@ func (e *emitted) hasIndividualNil() bool {
 }
 
 func isBatchKind(k string) bool {
-	return strings.HasPrefix(k, "M") || strings.HasPrefix(k, "Rm") || strings.HasPrefix(k, "Cm")
+	return strings.HasPrefix(k, "M") || strings.HasPrefix(k, "Rm") || strings.HasPrefix(k, "Cm") || strings.HasPrefix(k, "Pm")
 }
 
-var batchRes = map[string]bool{"findManyMByIDs": true, "findManyMByAlts": true, "findManyRmByIDs": true, "findManyRm2ByIDs": true, "findManyRm3ByIDs": true, "findManyCmByPAndQs": true}
+var batchRes = map[string]bool{"findManyMByIDs": true, "findManyMByAlts": true, "findManyRmByIDs": true, "findManyRm2ByIDs": true, "findManyRm3ByIDs": true, "findManyCmByPAndQs": true, "findManyPmByIDs": true}
 
 var resType = map[string]string{"findSByID": "S", "findKByA": "K", "findKByBAndC": "K", "findNByOid": "N",
 	"findManyMByIDs": "M", "findManyMByAlts": "M", "findRByID": "R", "findManyRmByIDs": "Rm",
 	"findR2ByID": "R2", "findManyRm2ByIDs": "Rm2", "findR3ByID": "R3", "findManyRm3ByIDs": "Rm3",
-	"findCByPAndQ": "C", "findManyCmByPAndQs": "Cm", "findN2ByOAAndOb": "N2", "findK2ByBAndC": "K2", "findK2ByA": "K2"}
+	"findCByPAndQ": "C", "findManyCmByPAndQs": "Cm", "findN2ByOAAndOb": "N2", "findK2ByBAndC": "K2", "findK2ByA": "K2", "findPByID": "P", "findManyPmByIDs": "Pm"}
 
 // the key leaves of the resolvers with a composite key, in argument order; the driver gives the
 // first leaf of representation j the value "i<j-1>" and the second "c<j-1>"
@@ -463,6 +546,30 @@ func concretise(k string, i int, rnd *rand.Rand) map[string]any {
 		m = map[string]any{"__typename": base, "id": id}
 		for fi, f := range reqFields[base] {
 			var good, bad any
+			if strings.HasPrefix(base, "P") {
+				// slot fi+1 of representation i carries 1000*(fi+1) + (i-1); nested paths live in their
+				// parent object, which is always present (a missing leaf is left out of it)
+				good, bad = float64(1000*(fi+1)+i-1), []any{"abc", map[string]any{"x": 1.0}, 1.5, []any{7.0}}[rnd.Intn(4)]
+				tgt := m
+				leaf := f
+				if d := strings.Index(f, "."); d > 0 {
+					par, _ := m[f[:d]].(map[string]any)
+					if par == nil {
+						par = map[string]any{}
+						m[f[:d]] = par
+					}
+					tgt, leaf = par, f[d+1:]
+				}
+				switch {
+				case fi+1 != j:
+					tgt[leaf] = good
+				case st == "b":
+					tgt[leaf] = bad
+				case st == "n":
+					tgt[leaf] = nil
+				}
+				continue
+			}
 			switch f {
 			case "w":
 				good, bad = w, []any{map[string]any{"x": 1.0}, []any{map[string]any{"y": "z"}}}[rnd.Intn(2)]
@@ -594,7 +701,7 @@ func concretise(k string, i int, rnd *rand.Rand) map[string]any {
 	return m
 }
 
-const entQuery = `query($reps:[_Any!]!){_entities(representations:$reps){__typename ... on S{v} ... on K{v} ... on N{v} ... on M{v} ... on R{v z} ... on Rm{v z} ... on R2{v z} ... on Rm2{v z} ... on R3{v z} ... on Rm3{v z} ... on C{v} ... on Cm{v} ... on N2{v} ... on K2{v}}}`
+const entQuery = `query($reps:[_Any!]!){_entities(representations:$reps){__typename ... on S{v} ... on K{v} ... on N{v} ... on M{v} ... on R{v z} ... on Rm{v z} ... on R2{v z} ... on Rm2{v z} ... on R3{v z} ... on Rm3{v z} ... on P{v z} ... on Pm{v z} ... on C{v} ... on Cm{v} ... on N2{v} ... on K2{v}}}`
 
 type job struct {
 	E       *emitted       `json:"emitted"`
@@ -780,6 +887,65 @@ func reqIndex(tn, z string, kinds []string, mapIdx func(int) int) int {
 	return -1
 }
 
+// pathVals decodes the echo of the slots of a P / Pm entity ("1003|2003|null|4003"): slot s holds
+// the value representation i carried for path p when it reads 1000*p + (i-1); null -> 0:0; anything
+// else (a zero value, not a number) -> -2:s. The second result is the index all values name (0 none,
+// -2 values of different representations / a zero value).
+func pathVals(z string) (psT, int) {
+	parts := strings.Split(z, "|")
+	vs := make([]pval, len(parts))
+	w := 0
+	for s, p := range parts {
+		if p == "null" {
+			continue
+		}
+		n, err := strconv.Atoi(p)
+		if err != nil || n < 1000 {
+			vs[s] = pval{I: -2, P: s + 1}
+			w = -2
+			continue
+		}
+		vs[s] = pval{I: n%1000 + 1, P: n / 1000}
+		if w == 0 {
+			w = vs[s].I
+		} else if w != vs[s].I {
+			w = -2
+		}
+	}
+	return mkPs(vs), w
+}
+
+// slotVals: the same for the older @requires types (w "w<i>", n 1000+i, l ["l<i>"]): their slots
+// have pairwise different Go types, so the path a value names is its own slot.
+func slotVals(tn, z string) psT {
+	fs := reqFields[tn]
+	parts := strings.Split(z, "|")
+	vs := make([]pval, len(parts))
+	for s, p := range parts {
+		if p == "null" {
+			continue
+		}
+		k := -2
+		if s < len(fs) {
+			switch fs[s] {
+			case "w":
+				k = parseIdx(p, "w")
+			case "l":
+				k = parseIdx(p, "l")
+			case "n":
+				if n, err := strconv.Atoi(p); err == nil && n >= 1000 {
+					k = n - 1000 + 1
+				}
+			}
+		}
+		if k <= 0 {
+			k = -2
+		}
+		vs[s] = pval{I: k, P: s + 1}
+	}
+	return mkPs(vs)
+}
+
 // abstractElem maps one element of the `_entities` list to (resolver, key index, requires index).
 func abstractElem(v any, kinds []string, mapIdx func(int) int) elem {
 	m, ok := v.(map[string]any)
@@ -809,7 +975,12 @@ func abstractElem(v any, kinds []string, mapIdx func(int) int) elem {
 	}
 	if reqFields[tn] != nil {
 		z, _ := m["z"].(string)
-		e.W = reqIndex(tn, z, kinds, mapIdx)
+		if strings.HasPrefix(tn, "P") {
+			e.Ps, e.W = pathVals(z)
+		} else {
+			e.W = reqIndex(tn, z, kinds, mapIdx)
+			e.Ps = slotVals(tn, z)
+		}
 	}
 	return e
 }
@@ -895,8 +1066,13 @@ func judge(j *job, o *observed) (string, string) {
 				note("empty-key", fmt.Sprintf("element %d was resolved by %s from an empty / foreign key (%d)", i, ob.R, ob.I))
 			case !okR:
 				note("wrong-resolver", fmt.Sprintf("element %d was resolved by %s, representation carries the keys of %v", i, ob.R, id.Rs))
-			case ob.W != mapIdx(id.W):
+			case ob.W != mapIdx(id.W) && !strings.HasPrefix(e.Reps[i], "P"):
 				note("requires-from-other", fmt.Sprintf("element %d: @requires field populated from representation %d (w index %d), expected its own", i, ob.W-1, ob.W))
+			case ob.Ps != id.Ps.mapI(mapIdx):
+				note("requires-path-value", fmt.Sprintf("element %d (%s): %s", i, e.Reps[i], describePs(e.Reps[i], ob.Ps, id.Ps.mapI(mapIdx))))
+			}
+			if id.Ps != "" && strings.HasPrefix(e.Reps[i], "P") {
+				countShapes(j.Variant, e.Reps[i], id.Ps)
 			}
 		}
 	}
@@ -916,7 +1092,7 @@ func judge(j *job, o *observed) (string, string) {
 	if same {
 		for i := range o.List {
 			ml := e.List[i]
-			ml.I, ml.W = mapIdx(ml.I), mapIdx(ml.W)
+			ml.I, ml.W, ml.Ps = mapIdx(ml.I), mapIdx(ml.W), ml.Ps.mapI(mapIdx)
 			same = same && o.List[i] == ml
 		}
 	}
@@ -962,6 +1138,59 @@ func judge(j *job, o *observed) (string, string) {
 		return "entities|diverges-from-model|" + strings.Join(e.Reps, ","), desc() + "(property satisfied; counts differ from the model)"
 	}
 	return "", ""
+}
+
+// describePs names the required paths whose slot does not hold what representation i carried for it.
+func describePs(kind string, got, want psT) string {
+	g, w := got.vals(), want.vals()
+	base, _, _ := splitKind(kind)
+	var out []string
+	for s := range w {
+		name := fmt.Sprintf("slot %d", s+1)
+		if fs := reqFields[base]; s < len(fs) {
+			name = fs[s]
+		}
+		switch {
+		case s >= len(g):
+			out = append(out, name+": missing from the echo")
+		case g[s] == w[s]:
+		case g[s].I == 0:
+			out = append(out, fmt.Sprintf("required path %s is null, the representation carries a value for it", name))
+		case g[s].I == -2:
+			out = append(out, fmt.Sprintf("required path %s holds a zero / foreign value (never assigned from the representation?)", name))
+		case w[s].I == 0:
+			out = append(out, fmt.Sprintf("required path %s holds a value although the representation carries none", name))
+		case g[s].P != w[s].P:
+			out = append(out, fmt.Sprintf("required path %s holds the value sent for path %d of representation %d", name, g[s].P, g[s].I-1))
+		default:
+			out = append(out, fmt.Sprintf("required path %s holds the value of representation %d, expected its own (%d)", name, g[s].I-1, w[s].I-1))
+		}
+	}
+	return strings.Join(out, "; ")
+}
+
+// counted dimensions of round 4: per (resolution path single / batch, probe variant, shape) the
+// number of non-null elements whose two slots of that shape were both compared with a prescribed
+// VALUE, and per (type, slot, status) the number of replays of a kind that deviates in that slot.
+var (
+	shapeMu    sync.Mutex
+	shapeCount = map[string]int{}
+	slotCount  = map[string]int{}
+)
+
+func countShapes(variant, kind string, want psT) {
+	w := want.vals()
+	mode := "single"
+	if isBatchKind(kind) {
+		mode = "batch"
+	}
+	shapeMu.Lock()
+	defer shapeMu.Unlock()
+	for _, sh := range pathShapes {
+		if sh.A <= len(w) && sh.B <= len(w) && w[sh.A-1].I > 0 && w[sh.B-1].I > 0 {
+			shapeCount[mode+"|"+variant+"|"+sh.Name]++
+		}
+	}
 }
 
 // ---- trace lines (B) -----------------------------------------------------------------------
@@ -1288,6 +1517,42 @@ func main() {
 		c.Set("race_behaviours", len(jobs))
 	}
 
+	// 3c. counted dimensions of the @requires paths (round 4): every shape on the individual and on
+	// the batch path of every variant, every (type, path, status) - a dimension nobody exercised is a
+	// vacuous run, not a pass
+	{
+		shapeMu.Lock()
+		c.Set("requires_path_shapes_compared", shapeCount)
+		c.Set("requires_path_status_replays", slotCount)
+		var missing []string
+		names := []string{"f0r"}
+		for _, f := range fvs {
+			names = append(names, f.V.Name)
+		}
+		for _, vn := range names {
+			for _, mode := range []string{"single", "batch"} {
+				for _, sh := range pathShapes {
+					if shapeCount[mode+"|"+vn+"|"+sh.Name] == 0 {
+						missing = append(missing, mode+"|"+vn+"|"+sh.Name)
+					}
+				}
+			}
+		}
+		for _, base := range []string{"P", "Pm"} {
+			for _, pth := range pPaths {
+				for _, st := range []string{"wrong-type", "null", "absent"} {
+					if slotCount[base+"|"+pth+"|"+st] == 0 {
+						missing = append(missing, base+"|"+pth+"|"+st)
+					}
+				}
+			}
+		}
+		shapeMu.Unlock()
+		if len(missing) > 0 && c.Violations() == 0 {
+			vlib.Infra("vacuous: @requires path dimensions never exercised: %v", missing)
+		}
+	}
+
 	// 4. (B) trace validation, per variant (ReqInline differs). Each behaviour's trace is validated
 	// on one variant (rotating). Traces are packed (packSize behaviours per unit handed to
 	// vlib.ValidateBatchWith, whose TLC runs take 160 units) - a rejected pack is re-validated
@@ -1482,7 +1747,8 @@ func main() {
 	}
 
 	c.Set("rule", "TLC enumerates (MC_Entities_emit.cfg) every representation list of length 0..MaxLen over an alphabet of representation kinds "+
-		"(typename x status of each key field: single / alternative / composite / nested key, batch types, @requires types, unknown type, missing __typename, missing / null / malformed key) "+
+		"(typename x status of each key field: single / alternative / composite / nested key, batch types, @requires types, unknown type, missing __typename, missing / null / malformed key; "+
+		"x status value / wrong type / null / absent of each required PATH - P / Pm require a flat field and a nested path with the same concatenated Go name, two nested paths with a shared prefix, one leaf name under two parents and one path twice, every leaf value naming its representation and its path) "+
 		"x resolver outcomes (entity, nil, error, panic; batch: right / short / long result, error, panic; <= MaxFaults faults) x completion orders of the resolver calls; "+
 		"each behaviour is replayed on every generated federation variant as a concrete `_entities` query with gated resolvers released in that order and compared element-wise with the property's prescription and the model's answer; "+
 		"the recorded events and response are validated by TLC against EntitiesTrace. A class is (model configuration, multiset of kinds, fault kinds, deviation class) per variant")
@@ -1605,6 +1871,13 @@ func evaluate(c *vlib.Check, j *job, bin string, drift *int) bool {
 	kinds := append([]string{}, e.Reps...)
 	sort.Strings(kinds)
 	c.Class(fmt.Sprintf("%s|%s|%s|%s|%v|dup=%v", j.Variant, e.Cfg, strings.Join(kinds, ","), strings.Join(faults, ","), e.Devs, j.Dup != nil))
+	shapeMu.Lock()
+	for _, k := range e.Reps {
+		if base, sl, st := splitKind(k); strings.HasPrefix(base, "P") && sl > 0 {
+			slotCount[fmt.Sprintf("%s|%s|%s", base, pPaths[sl-1], map[string]string{"b": "wrong-type", "n": "null", "a": "absent"}[st])]++
+		}
+	}
+	shapeMu.Unlock()
 	rb, _ := json.Marshal(s.Vars["reps"])
 	pb, _ := json.Marshal(s.Plan)
 	where := fmt.Sprintf("variant=%s representations=%s plan=%s release order=%v", j.Variant, rb, pb, s.Order)
